@@ -101,6 +101,75 @@ def work_extra(item):
     return res
 
 
+def fault_calls(ref, s, pat):
+    """(log index, step index) of every call of site s in the fault-free run on which the plan raises."""
+    out = []
+    n = 0
+    for i, r in enumerate(ref.log):
+        if r[0] != s:
+            continue
+        n += 1
+        if pat == "every" or n == pat or (isinstance(pat, (list, tuple)) and n in pat):
+            k = next(j for j, st in enumerate(ref.steps) if st["start"] <= i < st.get("end", 1 << 30))
+            out.append((i, k))
+    return out
+
+
+def work_switch(item):
+    """The FMS attaches or detaches between two loop iterations: a fault is swallowed exactly while it is attached
+    and propagates at the first faulting call made while it is not."""
+    R.install()
+    lay = item["layout"]
+    res = core.Result()
+    S = sites(lay)
+    for h in item["histories"]:
+        ref = R.run_life(lay, h, fms=True)
+        res.executions += 1
+        refseq = site_seq(ref)
+        if ref.end[0] != "exit":
+            res.violation("reference-run-failed", f"fault-free run of {h!r} ended with {ref.end!r}", dict(engine="robot", layout=lay, history=h, fms=True, faults={}))
+            continue
+        scheds = []
+        for j in range(1, len(h)):
+            scheds.append([True] * j + [False] * (len(h) - j))
+            scheds.append([False] * j + [True] * (len(h) - j))
+        for sched in scheds:
+            for s in S:
+                for pat in ("every", 2):
+                    calls = fault_calls(ref, s, pat)
+                    if not calls:
+                        continue
+                    plan = {s: pat}
+                    life = R.run_life(lay, h, fms=sched, faults=plan)
+                    res.executions += 1
+                    res.transitions += len(life.steps)
+                    res.checks += 1
+                    seq = site_seq(life)
+                    # the shutdown step has index len(h): it runs under the last FMS value
+                    loud = [(i, k) for i, k in calls if not sched[min(k, len(sched) - 1)]]
+                    rp = dict(engine="robot", layout=lay, history=h, fms=sched, faults=plan, source=R.robot_source(lay))
+                    desc = f"{s}@{pat}, FMS per iteration {''.join('F' if x else '-' for x in sched)}"
+                    if life.hang:
+                        res.violation("hang", f"history {h!r} faults {desc}: robot thread unresponsive", rp)
+                        return res
+                    first = "fms-detached-later" if sched[0] else "fms-attached-later"
+                    if loud:
+                        cut = loud[0][0]
+                        if life.end[0] != "exc" or not isinstance(life.end[1], R.Boom) or life.end[1].args != (s,):
+                            res.violation(f"switch:not-propagated:{first}", f"layout {lay['name']} history {h!r} fault {desc}: the call of {s} in iteration {loud[0][1]} is made without the FMS but the robot ended with {life.end!r} instead of the raised exception; callbacks {seq[cut:cut + 4]}", rp)
+                        elif seq != refseq[: cut + 1]:
+                            k = next((i for i, (x, y) in enumerate(zip(seq, refseq)) if x != y), min(len(seq), len(refseq)))
+                            res.violation(f"switch:wrong-run-before-propagation:{first}", f"layout {lay['name']} history {h!r} fault {desc}: callback sequence differs from the fault-free prefix at index {k}: got {seq[k:k + 4]}, expected {refseq[k:k + 4]} (propagation expected at index {cut})", rp)
+                    else:
+                        if life.end[0] != "exit" or seq != refseq:
+                            res.violation(f"switch:not-swallowed:{first}", f"layout {lay['name']} history {h!r} fault {desc}: every faulting call is made with the FMS attached, but end={life.end!r} / the callback sequence differs from the fault-free run", rp)
+                    res.outcome(core.stable_hash([h, desc, seq[-3:], life.end[0]]))
+                    res.visit(lay["name"], s, str(pat), first, len(loud) > 0)
+    if not res.samples and item["histories"]:
+        res.sample(dict(layout=lay["name"], history=item["histories"][-1], fms_schedules="attached for the first j iterations then detached, and the converse, for every j", sites=S))
+    return res
+
+
 def work(item):
     R.install()
     lay = item["layout"]
@@ -122,6 +191,8 @@ def work(item):
             for s in S:
                 for pat in (1, 2, "every"):
                     plans.append({s: pat})
+                # the same fault, but an exception object whose str() itself raises (message built from a non-string argument)
+                plans.append({s: 1, "__exc__": "badstr"})
         else:
             for a, b in itertools.combinations(S, 2):
                 plans.append({a: "every", b: "every"})
@@ -144,7 +215,7 @@ def work(item):
                 idx = len(seq) - 1
                 mode = mode_of_site(life, max(0, idx))
                 kind = "robot-stopped" if life.end[0] != "exit" else "callbacks-skipped"
-                sig = f"fms:{kind}:{where}:{mode if where == 'teleopPeriodic' else '*'}"
+                sig = f"fms:{kind}:{where}:{mode if where == 'teleopPeriodic' else '*'}" + (":unprintable-exception" if plan.get("__exc__") else "")
                 k = next((i for i, (x, y) in enumerate(zip(seq, refseq)) if x != y), min(len(seq), len(refseq)))
                 res.violation(sig, f"layout {lay['name']} history {h!r} faults {desc} (FMS attached): end={life.end[0]}; callback sequence diverges from the fault-free run at index {k}: got {seq[k:k+4]}, fault-free {refseq[k:k+4]}; last fault raised in {where}", rp)
             res.outcome(core.stable_hash([h, desc, seq[-3:], life.end[0]]))
@@ -165,7 +236,7 @@ def work(item):
                     return res
                 if will_fire:
                     cut = [i for i, x in enumerate(refseq) if x == s][pat - 1]
-                    if life2.end[0] != "exc" or not isinstance(life2.end[1], R.Boom) or life2.end[1].args != (s,):
+                    if life2.end[0] != "exc" or not isinstance(life2.end[1], R.BadStr if plan.get("__exc__") else R.Boom) or life2.end[1].args != (s,):
                         res.violation(f"nofms:not-propagated:{s}", f"layout {lay['name']} history {h!r} fault {desc} without FMS: robot ended with {life2.end!r} instead of the raised exception", rp2)
                     elif seq2 != refseq[: cut + 1]:
                         res.violation(f"nofms:ran-on-after-fault:{s}", f"layout {lay['name']} history {h!r} fault {desc} without FMS: callbacks after the fault: {seq2[cut+1:cut+5]}", rp2)
@@ -201,13 +272,19 @@ def main(tier, seed):
     sel_plans = [{s_: pat} for s_ in mode_sites for pat in ("every", 1)] + [{"mode.on_disable": "every", "other.on_disable": "every"}, {"mode.on_enable": "every", "other.on_enable": "every"}]
     sel_hs = [h for h in R.long_histories(6 if tier == "quick" else 8, pairs=("da", "at")) if h.count("a") >= 2 and ("da" in h[1:] or "ta" in h[1:])]
     extra += [dict(layout=sel_lay, histories=sel_hs[i:i + 3], selects=[0, 1, 2, 3], plans=sel_plans) for i in range(0, len(sel_hs), 3)]
+    # (c) the FMS attaches / detaches between two iterations
+    sw_hs = R.histories(3 if tier == "quick" else 4)
+    switch = [dict(layout=L[0], histories=sw_hs[i:i + 3]) for i in range(0, len(sw_hs), 3)]
     res = core.Result()
     with core.WorkerPool() as pool:
         for d in pool.run("mc.props.c07", "work", items, seed=seed):
             res.merge(d)
         for d in pool.run("mc.props.c07", "work_extra", extra, seed=seed):
             res.merge(d)
+        for d in pool.run("mc.props.c07", "work_switch", switch, seed=seed):
+            res.merge(d)
     res.bounds.update(slow_loop_histories=len(slow_hs), slow_loop_patterns=["calls 1 and 3", "calls 1, 2 and 4"], selection_change_histories=len(sel_hs), selection_change_after_step=[0, 1, 2, 3])
+    res.bounds.update(fms_switch_history_depth=3 if tier == "quick" else 4, fms_switch_schedules="attached for the first j words then detached, and the converse, every j", exception_kinds=["plain Exception subclass", "exception whose __str__ raises (first call of each site)"])
     res.bounds.update(single_fault_history_depth=d_single, fault_pair_history_depth=d_pair, layouts=len(L), sites=sites(L[0]), patterns=["1st call", "2nd call", "every call"])
     rule = (
         "for every layout, every driver-station history up to the stated depth and every fault plan (each callback site x {first, second, every call}; "
@@ -216,6 +293,8 @@ def main(tier, seed):
         "the FMS, where the injected exception object must propagate out of startCompetition() and nothing may run after the faulting call. "
         "In addition: a robot with a 0.3 s loop period and faults on calls 0.6 s or more apart (longer than error_report_interval), and a robot with two "
         "autonomous modes whose selection (dashboard 'Auto Selector') changes between two autonomous periods while mode callbacks fault. "
+        "Each site's first-call fault is also run with an exception object whose __str__ raises. The FMS flag is also switched between iterations (attached for the first j words, then detached, and the converse): "
+        "faults are swallowed exactly while it is attached and the first faulting call made without it propagates. "
         "states = distinct (layout, faulting site, pattern, mode in which it fired) combinations actually reached; transitions = loop iterations executed under a fault plan."
     )
     return core.finish(PID, tier, seed, res, time.time() - t0, rule, ["values seen by later callbacks are not compared (a raising callback does not finish its own side effects)", "setup() and createObjects() are not callback sites of this property"])
@@ -226,10 +305,20 @@ def replay(path):
     r = json.load(open(path))["replay"]
     lay, h = r["layout"], r["history"]
     obs = make_selector(r.get("select")) if "select" in r else None
-    ref = R.run_life(lay, h, fms=r["fms"], observe=obs)
+    ref = R.run_life(lay, h, fms=(True if isinstance(r["fms"], list) else r["fms"]), observe=obs)
     life = R.run_life(lay, h, fms=r["fms"], faults=r["faults"], observe=make_selector(r.get("select")) if "select" in r else None)
     print("fault-free :", site_seq(ref), ref.end[0])
     print("with faults:", site_seq(life), life.end)
+    if isinstance(r["fms"], list):
+        (s, pat), = [(k, (tuple(v) if isinstance(v, list) else v)) for k, v in r["faults"].items() if k != "__exc__"]
+        sched = r["fms"]
+        loud = [(i, k) for i, k in fault_calls(ref, s, pat) if not sched[min(k, len(sched) - 1)]]
+        if loud:
+            ok = life.end[0] == "exc" and isinstance(life.end[1], R.Boom) and site_seq(life) == site_seq(ref)[: loud[0][0] + 1]
+        else:
+            ok = life.end[0] == "exit" and site_seq(life) == site_seq(ref)
+        print("FMS schedule", sched, "-> first call made without the FMS:", loud[:1], "ok" if ok else "VIOLATION")
+        return 0 if ok else 1
     if r["fms"]:
         return 0 if (site_seq(ref) == site_seq(life) and life.end[0] == "exit") else 1
     return 0 if life.end[0] == "exc" else 1
